@@ -24,6 +24,8 @@ STRING / ANY, '0101' string for BIT STRING, list of ints for OID, float /
 strings, dict for SEQ/SET (absent OPTIONAL = missing key), list for the OF
 types, [name, value] for CHOICE.
 """
+import copy
+
 from simkit import tlv
 
 PRIMS = ('BOOLEAN', 'INTEGER', 'ENUMERATED', 'BITSTRING', 'OCTETSTRING', 'NULL',
@@ -217,7 +219,16 @@ def gen_prim(r, cfg, k):
         if k == 'INTEGER':
             lo = r.choice([-200, -1, 0, 1, 100])
             d['con'] = {'range': [lo, lo + r.choice([0, 1, 10, 1000, 2 ** 33])]}
-            if r.random() < 0.3:
+            x_ = r.random()
+            hi_ = d['con']['range'][1]
+            if x_ < 0.2 and hi_ - lo >= 10:
+                # exclusion of two operands:  INTEGER (lo..hi) (ALL EXCEPT ((a..b) | v))
+                a_ = lo + 1
+                d['con']['except'] = [[a_, a_ + r.choice([0, 2])], hi_ - 1]
+            elif x_ < 0.35:
+                # union of two ranges:  INTEGER ((lo..hi) | (hi+5..hi+6))
+                d['con'] = {'union': [[lo, hi_], [hi_ + 5, hi_ + 5 + r.choice([0, 1])]]}
+            elif x_ < 0.6:
                 # a type refined twice:  T ::= INTEGER (lo..hi)   U ::= T (v1 | v2 | ...)
                 hi = d['con']['range'][1]
                 d['con']['refine_values'] = sorted(set([lo, hi] + ([(lo + hi) // 2] if r.random() < 0.5 else [])))
@@ -373,9 +384,11 @@ INT_POOL = [0, 1, -1, 127, 128, -128, -129, 255, 256, 32767, -32768, 2 ** 31, -2
 def _len_choice(r, vc, lo=0, hi=None):
     pool = [0, 1, 2, 3, 5, 8, 17]
     if not vc.small:
-        pool += [127, 128, 130]
+        # around the short/long length form and the one/two-octet length boundaries
+        pool += [125, 126, 127, 128, 129, 130, 255, 256, 257]
         if vc.big_strings:
-            pool += [301, 1001, 1100, 2500, 301, 1001]
+            # around the CER fragment size and its multiples
+            pool += [301, 999, 1000, 1001, 1100, 1999, 2000, 2001, 2500, 1001, 1000]
     if hi is not None:
         pool = [x for x in pool if lo <= x <= hi] or [lo]
     else:
@@ -383,7 +396,43 @@ def _len_choice(r, vc, lo=0, hi=None):
     return r.choice(pool)
 
 
+def int_con_ok(con, x):
+    """The INTEGER constraint forms of the universe as a plain predicate."""
+    if 'union' in con:
+        return any(a <= x <= b for a, b in con['union'])
+    if 'range' in con and not con['range'][0] <= x <= con['range'][1]:
+        return False
+    if 'refine_values' in con and x not in con['refine_values']:
+        return False
+    if 'except' in con:
+        (a, b), v = con['except']
+        if a <= x <= b or x == v:
+            return False
+    return True
+
+
 def gen_value(r, desc, vc=None, govmap=None):
+    """Draw a value.  Within one top-level call a quarter of the scalar leaves repeat the value drawn before
+    for a leaf of the same kind and constraint: independent draws almost never coincide, and equal siblings
+    (equal numbers, equal strings, equal lengths) are where caches, memos and sort ties live."""
+    vc = vc or ValCfg()
+    k = desc['k']
+    if k in PRIMS and k not in ('BOOLEAN', 'NULL') and not desc.get('named'):
+        memo = vc.__dict__.setdefault('_echo', {})
+        key = (k, repr(sorted((desc.get('con') or {}).items())))
+        if key in memo and r.random() < 0.25:
+            return memo[key]
+        v = _gen_value(r, desc, vc, govmap)
+        try:
+            hash(repr(v))
+            memo[key] = v
+        except Exception:
+            pass
+        return v
+    return _gen_value(r, desc, vc, govmap)
+
+
+def _gen_value(r, desc, vc=None, govmap=None):
     vc = vc or ValCfg()
     k = desc['k']
     con = desc.get('con') or {}
@@ -392,9 +441,16 @@ def gen_value(r, desc, vc=None, govmap=None):
     if k == 'INTEGER':
         if 'refine_values' in con:
             return r.choice(con['refine_values'])
+        if 'union' in con:
+            a, b = r.choice(con['union'])
+            return r.choice([a, b, r.randint(a, b)])
         if 'range' in con:
             lo, hi = con['range']
-            return r.choice([lo, hi, (lo + hi) // 2, r.randint(lo, hi)])
+            for _ in range(8):
+                x = r.choice([lo, hi, (lo + hi) // 2, r.randint(lo, hi)])
+                if int_con_ok(con, x):
+                    return x
+            return lo
         return r.choice(INT_POOL) if r.random() < 0.8 else r.randint(-70000, 70000)
     if k == 'ENUMERATED':
         return r.choice(desc['named'])[1]
@@ -458,7 +514,13 @@ def gen_value(r, desc, vc=None, govmap=None):
         pool = [0, 1, 2, 3, 5] if not vc.small else [0, 1, 2]
         pool = [x for x in pool if x >= lo and (hi is None or x <= hi)] or [lo]
         n = r.choice(pool)
-        return [gen_value(r, desc['of'], vc) for _ in range(n)]
+        out = []
+        for _ in range(n):
+            if out and r.random() < 0.2:
+                out.append(copy.deepcopy(r.choice(out)))     # equal elements (duplicates in a SET OF, ties in a sort)
+            else:
+                out.append(gen_value(r, desc['of'], vc))
+        return out
     if k == 'CHOICE':
         name, a = r.choice(desc['alts'])
         return [name, gen_value(r, a, vc)]
@@ -526,13 +588,19 @@ def _constraint(desc):
     cs = []
     if 'range' in con:
         cs.append(p.constraint.ValueRangeConstraint(con['range'][0], con['range'][1]))
+    if 'except' in con:
+        (a, b), v = con['except']
+        cs.append(p.constraint.ConstraintsExclusion(p.constraint.ValueRangeConstraint(a, b),
+                                                    p.constraint.SingleValueConstraint(v)))
+    if 'union' in con:
+        cs.append(p.constraint.ConstraintsUnion(*[p.constraint.ValueRangeConstraint(a, b) for a, b in con['union']]))
     if 'size' in con:
         cs.append(p.constraint.ValueSizeConstraint(con['size'][0], con['size'][1]))
     if 'alpha' in con:
         cs.append(p.constraint.PermittedAlphabetConstraint(*list(con['alpha'])))
     if not cs:
         return None
-    if len(cs) == 1 and 'refine_values' not in con:
+    if len(cs) == 1 and 'refine_values' not in con and 'except' not in con:
         return cs[0]
     # the idiomatic form (Integer.subtypeSpec + ValueRangeConstraint(...)): a set that subtype() can extend
     return p.constraint.ConstraintsIntersection(*cs)
@@ -581,9 +649,31 @@ def build_schema(desc):
     return obj
 
 
+def narrowed(sub, desc, v, slack=1):
+    """The value as an object of a derived, NARROWER subtype of `sub` (Percent(50) for an INTEGER slot):
+    the same abstract value behind another type object.  Falls back to a plain object."""
+    C = p.constraint
+    k = desc['k']
+    try:
+        if k in ('INTEGER', 'ENUMERATED') and isinstance(v, int) and not isinstance(v, bool) and not desc.get('named'):
+            extra = C.ValueRangeConstraint(v - slack, v + slack)
+        elif k == 'OCTETSTRING':
+            n = len(v) // 2
+            extra = C.ValueSizeConstraint(max(0, n - slack), n + slack)
+        elif k in CHARS:
+            extra = C.ValueSizeConstraint(max(0, len(v) - slack), len(v) + slack)
+        else:
+            return build_value(sub, desc, v)
+        return sub.subtype(subtypeSpec=extra).clone(prim_arg(desc, v))
+    except Exception:
+        return build_value(sub, desc, v)
+
+
 def prim_arg(desc, v):
     """Constructor argument for a primitive pyvalue."""
     k = desc['k']
+    if k == 'OCTETSTRING' and isinstance(v, dict):
+        return bytes.fromhex(v['rep']) * v['n']        # compact notation for very long values
     if k == 'OCTETSTRING' or k == 'ANY':
         return bytes.fromhex(v)
     if k == 'BITSTRING':
@@ -993,6 +1083,8 @@ def conforms(obj, desc, schema, path='$'):
         if 'refine_values' in con:
             if int(obj) not in con['refine_values']:
                 return '%s: %d outside the permitted values %r' % (path, int(obj), con['refine_values'])
+        if ('except' in con or 'union' in con) and not int_con_ok(con, int(obj)):
+            return '%s: %d outside %r' % (path, int(obj), {k_: con[k_] for k_ in ('range', 'except', 'union') if k_ in con})
         if 'size' in con:
             lo, hi = con['size']
             n = len(obj)
